@@ -382,43 +382,42 @@ Proof.
 Qed.
 
 (* (a) a resource without duplicates whose names are all free is accepted and every rule is stored as written *)
-Theorem build_accept : forall rs es,
+Lemma walk_accept : forall rs es,
   NoDup (names rs) -> (forall r, In r rs -> has_key B (r_name r) es = false) ->
-  build_kb B rs es = (es ++ map (mk_entry B) rs, false).
+  walk_kb B rs es = (es ++ map (mk_entry B) rs, false).
 Proof.
-  intros rs es Hnd Hk. unfold build_kb. rewrite (grl_collect_nodup rs [] false) by exact Hnd. simpl.
+  intros rs es Hnd Hk. unfold walk_kb. rewrite (grl_collect_nodup rs [] false) by exact Hnd. simpl.
   apply add_all_accept; auto.
 Qed.
 
-(* (b) whatever the verdict, every entry that was there stays, unchanged and in place; what is added are rules of
-       the resource whose name was free *)
-Theorem build_extends : forall rs es,
-  exists added, fst (build_kb B rs es) = es ++ added /\
+(* the walk of the listener (before a possible restore) only appends rules of the resource whose name was free *)
+Lemma walk_extends : forall rs es,
+  exists added, fst (walk_kb B rs es) = es ++ added /\
     (forall x, In x added -> exists r, In r rs /\ x = mk_entry B r /\ has_key B (r_name r) es = false).
 Proof.
-  intros rs es. unfold build_kb. destruct (grl_collect B rs [] false) as [g e1] eqn:Eg.
+  intros rs es. unfold walk_kb. destruct (grl_collect B rs [] false) as [g e1] eqn:Eg.
   destruct (grl_collect_spec rs [] false) as (kept & E1 & I1 & _). rewrite Eg in E1. simpl in E1. subst g.
   destruct (add_all_spec kept es e1) as (added & E2 & A2). exists added. split; auto.
   intros x Hx. destruct (A2 x Hx) as (r & Hr & Ex & Hk). exists r. split; auto.
 Qed.
 
 (* (c) the verdict: no error exactly when the names of the resource are pairwise different and all free *)
-Theorem build_error_iff : forall rs es,
-  snd (build_kb B rs es) = false <-> (NoDup (names rs) /\ forall r, In r rs -> has_key B (r_name r) es = false).
+Lemma walk_error_iff : forall rs es,
+  snd (walk_kb B rs es) = false <-> (NoDup (names rs) /\ forall r, In r rs -> has_key B (r_name r) es = false).
 Proof.
   intros rs es. split.
-  - unfold build_kb. destruct (grl_collect B rs [] false) as [g e1] eqn:Eg. intros H.
+  - unfold walk_kb. destruct (grl_collect B rs [] false) as [g e1] eqn:Eg. intros H.
     destruct (add_all_ok _ _ _ H) as (He & Hk). subst e1.
     assert (Hs : snd (grl_collect B rs [] false) = false) by (rewrite Eg; reflexivity).
     destruct (grl_collect_ok _ _ _ Hs) as (_ & Hnd & _). split; auto.
     rewrite (grl_collect_nodup rs [] false Hnd) in Eg. inversion Eg. subst g. exact Hk.
-  - intros (Hnd & Hk). rewrite build_accept; auto.
+  - intros (Hnd & Hk). rewrite walk_accept; auto.
 Qed.
 
-Lemma build_kb_ok : forall n rs es, forallb (fun r => is_user (r_name r)) rs = true -> kb_ok n es -> kb_ok n (fst (build_kb B rs es)).
+Lemma walk_kb_ok : forall n rs es, forallb (fun r => is_user (r_name r)) rs = true -> kb_ok n es -> kb_ok n (fst (walk_kb B rs es)).
 Proof.
   intros n rs es Hu (Hnd & Hall). rewrite forallb_forall in Hu.
-  unfold build_kb. destruct (grl_collect B rs [] false) as [g e1] eqn:Eg.
+  unfold walk_kb. destruct (grl_collect B rs [] false) as [g e1] eqn:Eg.
   destruct (grl_collect_spec rs [] false) as (kept & E1 & I1 & _). rewrite Eg in E1. simpl in E1. subst g.
   assert (Hug : forall r, In r kept -> is_user (r_name r) = true) by (intros r Hr; apply Hu; apply I1; exact Hr).
   clear Eg I1 Hu. revert es e1 Hnd Hall. induction kept as [|r kept IH]; simpl; intros es e1 Hnd Hall.
@@ -431,6 +430,43 @@ Proof.
         apply nodup_snoc; auto.
       * apply Forall_app. split; auto. constructor; [|constructor].
         unfold entry_ok, mk_entry, le_key, le_deleted. simpl. split; [reflexivity|]. split; [left; apply Hug; left; reflexivity|discriminate].
+Qed.
+
+(* ---- the transactional build: the walk, then restore() when it reported an error ---- *)
+Lemma build_kb_unfold : forall rs es,
+  build_kb B rs es = (if snd (walk_kb B rs es) then (es, true) else (fst (walk_kb B rs es), false)).
+Proof. intros. unfold build_kb. destruct (walk_kb B rs es) as [es' e]. reflexivity. Qed.
+
+(* (a) a resource without duplicates whose names are all free is accepted and every rule is stored as written *)
+Theorem build_accept : forall rs es,
+  NoDup (names rs) -> (forall r, In r rs -> has_key B (r_name r) es = false) ->
+  build_kb B rs es = (es ++ map (mk_entry B) rs, false).
+Proof. intros rs es Hnd Hk. rewrite build_kb_unfold, walk_accept; auto. Qed.
+
+(* (b) the verdict: no error exactly when the names of the resource are pairwise different and all free *)
+Theorem build_error_iff : forall rs es,
+  snd (build_kb B rs es) = false <-> (NoDup (names rs) /\ forall r, In r rs -> has_key B (r_name r) es = false).
+Proof.
+  intros rs es. rewrite <- walk_error_iff. rewrite build_kb_unfold. destruct (snd (walk_kb B rs es)); simpl; split; auto.
+Qed.
+
+(* (c) a rejected resource leaves the rule entries exactly as they were *)
+Theorem build_reject : forall rs es, snd (build_kb B rs es) = true -> fst (build_kb B rs es) = es.
+Proof. intros rs es. rewrite build_kb_unfold. destruct (snd (walk_kb B rs es)); simpl; auto. discriminate. Qed.
+
+(* whatever the verdict, every entry that was there stays, unchanged and in place *)
+Theorem build_extends : forall rs es,
+  exists added, fst (build_kb B rs es) = es ++ added /\
+    (forall x, In x added -> exists r, In r rs /\ x = mk_entry B r /\ has_key B (r_name r) es = false).
+Proof.
+  intros rs es. rewrite build_kb_unfold. destruct (snd (walk_kb B rs es)); simpl.
+  - exists []. rewrite app_nil_r. split; auto. intros x [].
+  - apply walk_extends.
+Qed.
+
+Lemma build_kb_ok : forall n rs es, forallb (fun r => is_user (r_name r)) rs = true -> kb_ok n es -> kb_ok n (fst (build_kb B rs es)).
+Proof.
+  intros n rs es Hu Hk. rewrite build_kb_unfold. destruct (snd (walk_kb B rs es)); simpl; auto. apply walk_kb_ok; auto.
 Qed.
 
 
@@ -674,39 +710,42 @@ Definition kb_at (s : state) (k : string) : kb := lib_kb B s k.
 Lemma kb_at_update_eq : forall (m : amap kb) k es insts n, kb_at {| st_lib := aupdate k es m; st_insts := insts; st_next := n |} k = es.
 Proof. intros. unfold kb_at, lib_kb. simpl. rewrite lib_alookup_aupdate_eq. reflexivity. Qed.
 
-(* a build, accepted or not, leaves every existing entry of that knowledge base in place and untouched;
-   it is rejected exactly when a name occurs twice in the resource or is already a key of the knowledge base;
-   an accepted resource is stored rule by rule as written *)
+(* a build is rejected exactly when a name occurs twice in the resource or is already a key of the knowledge base;
+   an accepted resource is stored rule by rule as written, after the entries that were there;
+   a rejected resource leaves the entries of that knowledge base exactly as they were *)
 Theorem build_step : forall s k rs s' err,
   step s (OBuild k rs) = (s', RBuild err) ->
-  (exists added, kb_at s' k = kb_at s k ++ added /\
-       forall x, In x added -> exists r, In r rs /\ x = mk_entry B r /\ has_key B (r_name r) (kb_at s k) = false) /\
   (err = false <-> (NoDup (names rs) /\ forall r, In r rs -> has_key B (r_name r) (kb_at s k) = false)) /\
-  (err = false -> kb_at s' k = kb_at s k ++ map (mk_entry B) rs).
+  (err = false -> kb_at s' k = kb_at s k ++ map (mk_entry B) rs) /\
+  (err = true -> kb_at s' k = kb_at s k).
 Proof.
   intros s k rs s' err H. simpl in H. destruct (build_kb B rs (lib_kb B s k)) as [es' e] eqn:Eb. inversion H; subst. clear H.
   rewrite kb_at_update_eq. unfold kb_at.
-  pose proof (build_extends rs (lib_kb B s k)) as H1. pose proof (build_error_iff rs (lib_kb B s k)) as H2.
-  rewrite Eb in H1, H2. simpl in H1, H2.
-  split; [exact H1|]. split; [exact H2|].
+  pose proof (build_error_iff rs (lib_kb B s k)) as H2. pose proof (build_reject rs (lib_kb B s k)) as H4.
+  rewrite Eb in H2, H4. simpl in H2, H4.
+  split; [exact H2|]. split; [|exact H4].
   intros He. apply H2 in He. destruct He as (Hnd & Hk).
   pose proof (build_accept rs (lib_kb B s k) Hnd Hk) as H3. rewrite Eb in H3. inversion H3. reflexivity.
 Qed.
 
-(* the statement "a rejected build leaves the state unchanged" holds when every rule of the resource is a duplicate *)
-Theorem build_fail_unchanged_partial : forall s k rs es,
-  alookup k (st_lib s) = Some es -> (forall r, In r rs -> has_key B (r_name r) es = true) ->
-  fst (step s (OBuild k rs)) = s.
+(* a rejected build leaves the state unchanged: every instance, the tombstone supply and the entries of every knowledge
+   base; the only trace it can leave is the EMPTY knowledge base GetKnowledgeBase creates for a key that did not exist *)
+Theorem build_fail_unchanged : forall s k rs s',
+  step s (OBuild k rs) = (s', RBuild true) ->
+  st_insts s' = st_insts s /\ st_next s' = st_next s /\
+  (forall k', kb_at s' k' = kb_at s k') /\
+  (forall k', k' <> k -> alookup k' (st_lib s') = alookup k' (st_lib s)) /\
+  (alookup k (st_lib s) <> None -> s' = s).
 Proof.
-  intros s k rs es E Hk. simpl. unfold lib_kb. rewrite E.
-  assert (Hb : fst (build_kb B rs es) = es).
-  { unfold build_kb. destruct (grl_collect B rs [] false) as [g e1] eqn:Eg.
-    destruct (grl_collect_spec rs [] false) as (kept & E1 & I1 & _). rewrite Eg in E1. simpl in E1. subst g.
-    assert (Hk' : forall r, In r kept -> has_key B (r_name r) es = true) by (intros r Hr; apply Hk; apply I1; exact Hr).
-    clear Eg I1. revert e1. induction kept as [|r kept IH]; simpl; intros e1; auto.
-    rewrite (Hk' r) by (left; reflexivity). apply IH. intros r0 Hr0. apply Hk'. right. exact Hr0. }
-  destruct (build_kb B rs es) as [es' err]. simpl in *. subst es'. rewrite lib_aupdate_same by exact E.
-  destruct s; reflexivity.
+  intros s k rs s' H. simpl in H. destruct (build_kb B rs (lib_kb B s k)) as [es' e] eqn:Eb. inversion H; subst. clear H.
+  pose proof (build_reject rs (lib_kb B s k)) as Hr. rewrite Eb in Hr. simpl in Hr. specialize (Hr eq_refl). subst es'.
+  simpl. split; auto. split; auto. split; [|split].
+  - intros k'. destruct (String.eqb k k') eqn:E.
+    + apply String.eqb_eq in E. subst k'. rewrite kb_at_update_eq. reflexivity.
+    + unfold kb_at, lib_kb. simpl. rewrite lib_alookup_aupdate_neq; auto. intros ->. rewrite String.eqb_refl in E. discriminate.
+  - intros k' Hk. apply lib_alookup_aupdate_neq. congruence.
+  - intros Hex. unfold lib_kb. destruct (alookup k (st_lib s)) as [es|] eqn:E; [|congruence].
+    rewrite lib_aupdate_same by exact E. destruct s; reflexivity.
 Qed.
 
 (* (iv) a name that was removed can be built again, and then denotes the new rule *)
@@ -1026,22 +1065,6 @@ Let rA : rule unit := {| r_name := "A"%string; r_sal := 1%Z; r_body := tt |}.
 Let rB : rule unit := {| r_name := "B"%string; r_sal := 2%Z; r_body := tt |}.
 Let K : string := "KB:1"%string.
 
-(* D10b: "a rejected build leaves the library unchanged" — a resource holding a new rule B and a duplicate of A is
-   rejected, and B is in the knowledge base afterwards *)
-Definition failed_build_unchanged_statement : Prop :=
-  forall (s : state unit) k rs s', wf_state unit s -> wstep s (OBuild k rs) = (s', RBuild true) -> s' = s.
-
-Definition d10b_before : state unit := Eval vm_compute in wrun [OBuild K [rA]] (init unit).
-Definition d10b_after : state unit * result unit := Eval vm_compute in wstep d10b_before (OBuild K [rB; rA]).
-
-Theorem failed_build_unchanged_refuted : ~ failed_build_unchanged_statement.
-Proof.
-  intros H.
-  assert (Hwf : wf_state unit d10b_before).
-  { change d10b_before with (wrun [OBuild K [rA]] (init unit)). apply run_wf; [intros i l x Hx; exact Hx|repeat constructor]. }
-  specialize (H d10b_before K [rB; rA] (fst d10b_after) Hwf eq_refl). discriminate H.
-Qed.
-
 (* D8: "a removed rule is never in force again" — build A, remove A, store and load: the tombstone is in force *)
 Definition removed_rules_stay_removed_statement : Prop :=
   forall ops, ops_user unit unit ops -> clean unit (wrun ops (init unit)).
@@ -1097,17 +1120,19 @@ Definition C16_unique_names_statement : Prop :=
   (forall i ins, nth_error (st_insts s) i = Some ins -> NoDup (active_names B (i_kb ins))).
 
 (* 2. "building a rule whose name already exists, in the same or a later resource, returns an error and leaves the
-      existing rule in force" (+ an accepted resource is stored as written) *)
+      existing rule in force" (+ an accepted resource is stored as written, a rejected one changes nothing) *)
 Definition C16_build_statement : Prop :=
   forall s k rs s' err, step s (OBuild k rs) = (s', RBuild err) ->
-  (exists added, kb_at B s' k = kb_at B s k ++ added /\
-       forall x, In x added -> exists r, In r rs /\ x = mk_entry B r /\ has_key B (r_name r) (kb_at B s k) = false) /\
   (err = false <-> (NoDup (names B rs) /\ forall r, In r rs -> has_key B (r_name r) (kb_at B s k) = false)) /\
-  (err = false -> kb_at B s' k = kb_at B s k ++ map (mk_entry B) rs).
+  (err = false -> kb_at B s' k = kb_at B s k ++ map (mk_entry B) rs) /\
+  (err = true -> kb_at B s' k = kb_at B s k).
 
-Definition C16_failed_build_unchanged_partial_statement : Prop :=
-  forall s k rs es, alookup k (st_lib s) = Some es -> (forall r, In r rs -> has_key B (r_name r) es = true) ->
-  fst (step s (OBuild k rs)) = s.
+Definition C16_failed_build_unchanged_statement : Prop :=
+  forall s k rs s', step s (OBuild k rs) = (s', RBuild true) ->
+  st_insts s' = st_insts s /\ st_next s' = st_next s /\
+  (forall k', kb_at B s' k' = kb_at B s k') /\
+  (forall k', k' <> k -> alookup k' (st_lib s') = alookup k' (st_lib s)) /\
+  (alookup k (st_lib s) <> None -> s' = s).
 
 (* 3. "After RemoveRuleEntry the rule never matches or fires again on the instance it was removed from" *)
 Definition C16_removed_from_instance_statement : Prop :=
@@ -1157,8 +1182,8 @@ Theorem C16_unique_names_proved : C16_unique_names_statement.
 Proof. exact (unique_names B F holds self zap order). Qed.
 Theorem C16_build_proved : C16_build_statement.
 Proof. exact (build_step B F holds self zap order). Qed.
-Theorem C16_failed_build_unchanged_partial_proved : C16_failed_build_unchanged_partial_statement.
-Proof. exact (build_fail_unchanged_partial B F holds self zap order). Qed.
+Theorem C16_failed_build_unchanged_proved : C16_failed_build_unchanged_statement.
+Proof. exact (build_fail_unchanged B F holds self zap order). Qed.
 Theorem C16_removed_from_instance_proved : C16_removed_from_instance_statement.
 Proof. exact (removed_from_instance_forever B F holds self zap order). Qed.
 Theorem C16_only_rules_in_force_proved : C16_only_rules_in_force_statement.
